@@ -106,6 +106,17 @@ def main():
                 ("dsge", lambda s: DynamicStructuredGrammaticalEvolutionRepresentation(g, d)),
                 ("stack", lambda s: StackBasedGGGPRepresentation(g, gene_length=256)),
             ]
+            # a fixed multi-step scenario per representation: parents are created and mapped, every pair is
+            # crossed over, every parent mutated, and each offspring is mapped twice with other draws in between
+            fam = [["create", 0], ["create", 0], ["map", 0], ["map", 1], ["map", 2], ["xo", 0], ["xo", 1], ["mutate", 0],
+                   ["mutate", 2], ["map", 3], ["map", 4], ["draw", 0], ["map", 5], ["map", 6], ["map", 7], ["map", 8],
+                   ["draw", 0], ["map", 3], ["map", 4], ["map", 5], ["map", 6], ["map", 7], ["map", 8], ["map", 0]]
+            for ri, (rname, mk) in enumerate(reps):
+                for j in range(2 if quick else 10):
+                    evs = run_sequence(R, g, rname, mk, fam, refined)
+                    if evs:
+                        batch.trace(f"{spec['id']}/{rname}{ri}/family{j}", evs, {"k": "c07", "refined": refined, "seq": fam})
+                        nev += len(evs)
             per = 6 if quick else 60
             for ri, (rname, mk) in enumerate(reps):
                 for j in range(per):
